@@ -26,6 +26,10 @@ type Case struct {
 	// failing-input search: every StallEvery-th task holds its worker for StallMs ms
 	StallMs    int `json:"stall_ms,omitempty"`
 	StallEvery int `json:"stall_every,omitempty"`
+	// every-tier legs of diversity.go: kind "reuse" | "nest" | "sizes"
+	Reuse *reuseCase `json:"reuse,omitempty"`
+	Nest  *nestCase  `json:"nest,omitempty"`
+	Sizes string     `json:"sizes,omitempty"` // pool | async
 }
 
 type fail struct{ key, what string }
